@@ -254,16 +254,45 @@ Theorem C06_nothing_pending_after_leave : forall fl cfg s rs,
 Proof. exact onLeave_clears. Qed.
 Print Assumptions C06_nothing_pending_after_leave.
 
-(* transport loss with the default onDisconnect: the tables are EMPTY afterwards whatever the callbacks do (without a
-   transport every request they try to issue is refused), every request pending before has a result *)
+(* transport loss (onClose): the tables are EMPTY afterwards whatever the callbacks do (without a transport every
+   request they try to issue is refused), every request pending before has a result.  Twisted: for EVERY
+   configuration of the user's callbacks -- onClose sweeps once more after onDisconnect, whether or not onLeave /
+   onDisconnect call the base class (a0cad4f0); asyncio: at once with the default onDisconnect, otherwise one loop
+   iteration later (next theorem) *)
 Theorem C06_nothing_pending_after_transport_loss : forall fl cfg s clean,
-  transport s = true -> u_disc_super cfg = true ->
+  transport s = true -> (fl = Tx \/ u_disc_super cfg = true) ->
   let s' := fst (step fl cfg s (OLost clean)) in
   transport s' = false /\ pend s' = []
   /\ (forall r, In r (pend s) -> is_done s' (r_fut r) = true)
   /\ forall x y, In (x, y) (done s') -> In (x, y) (done s) \/ y = RErr (ELeave RsTransportLost) \/ y = RErr ETransportLost.
 Proof. exact lost_clears. Qed.
 Print Assumptions C06_nothing_pending_after_transport_loss.
+
+(* asyncio, every configuration: the final sweep is the continuation of onDisconnect and runs in the next loop
+   iteration: from a settled loop, the loss followed by one iteration leaves the tables empty *)
+Theorem C06_nothing_pending_after_transport_loss_asyncio : forall cfg s clean, queue s = [] -> transport s = true ->
+  let s1 := fst (step Aio cfg s (OLost clean)) in
+  let s2 := fst (step Aio cfg s1 OTurn) in
+  transport s2 = false /\ pend s2 = [].
+Proof. exact aio_lost_clears. Qed.
+Print Assumptions C06_nothing_pending_after_transport_loss_asyncio.
+
+(* Twisted, every history, every configuration: an object without a transport has empty request tables.  In
+   particular every life of a session object starts with empty tables *)
+Theorem C06_no_transport_nothing_pending : forall cfg ops,
+  transport (final Tx cfg ops) = false -> pend (final Tx cfg ops) = [].
+Proof. exact tx_no_transport_no_pending. Qed.
+Print Assumptions C06_no_transport_nothing_pending.
+
+(* asyncio: that iteration is a window.  An object that is given its next transport in the SAME loop iteration in
+   which it lost the previous one and issues a request before the loop runs again has that request failed with
+   TransportLost by the deferred sweep of the previous life *)
+Theorem C06_asyncio_deferred_sweep_hits_next_life :
+  exists cfg ops, transport (final Aio cfg ops) = true /\ In (Completed 0 (RErr ETransportLost)) (trace Aio cfg ops).
+Proof.
+  exists default_cfg, [OOpen; OTurn; OLost false; OOpen; ACall 1 [] [] None; OTurn; OTurn]. vm_compute. split; auto 12.
+Qed.
+Print Assumptions C06_asyncio_deferred_sweep_hits_next_life.
 
 (* every future ever created for a request -- by the user directly or by a re-entering callback -- is, in every
    reachable state, pending in a table, completed, or on the ghost list of futures whose record was dropped (the two
@@ -287,20 +316,17 @@ Proof.
 Qed.
 Print Assumptions C06_nothing_pending_refuted_lost_future.
 
-(* FALSE across lives: join() starts the request ids at 1 again but keeps the request tables; with a user onDisconnect
-   that does not call the default sweep, the record of a request of the previous life is overwritten by the request
-   of the new session that gets the same id: its future is never completed, not even by the sweeps of the second life *)
-Theorem C06_nothing_pending_refuted_stale_record_overwritten :
-  exists cfg ops, transport (final Tx cfg ops) = false /\ pend (final Tx cfg ops) = []
-                  /\ In (ApiReturned (Some 0)) (trace Tx cfg ops) /\ is_done (final Tx cfg ops) 0 = false.
-Proof.
-  exists {| u_connect := CnJoin; u_welcome := WlNone; u_challenge := ChRaise; u_join_raises := false;
-            u_leave_super := true; u_leave_raises := false; u_disc_super := false; u_disc_raises := false;
-            t_lenient := false |},
-         [OOpen; ACall 1 [] [] None; OLost true; OOpen; RWelcome 2; ACall 3 [] [] None; OLost false].
-  vm_compute. repeat split; auto 12.
-Qed.
-Print Assumptions C06_nothing_pending_refuted_stale_record_overwritten.
+(* regression example (before a0cad4f0: join() restarts the request ids but the tables kept the records of the previous
+   life when the user's onDisconnect did not call the default; call #1 of the second session overwrote the record of
+   call #1 of the first, whose future never completed): now both futures have results *)
+Theorem C06_stale_record_example :
+  let cfg := {| u_connect := CnJoin; u_welcome := WlNone; u_challenge := ChRaise; u_join_raises := false;
+                u_leave_super := true; u_leave_raises := false; u_disc_super := false; u_disc_raises := false;
+                t_lenient := false |} in
+  let ops := [OOpen; ACall 1 [] [] None; OLost true; OOpen; RWelcome 2; ACall 3 [] [] None; OLost false] in
+  pend (final Tx cfg ops) = [] /\ is_done (final Tx cfg ops) 0 = true /\ is_done (final Tx cfg ops) 1 = true.
+Proof. vm_compute. repeat split. Qed.
+Print Assumptions C06_stale_record_example.
 
 (* ---- API calls after the end ---- *)
 Theorem C06_api_after_end : forall fl cfg s o,
